@@ -85,7 +85,10 @@ def oracle_http(case):
     disp, dm, registry, cfg = refmodel.make_dispatcher(case["version"], case["jsonclass"], "funcs", registry)
     expected = disp._marshaled_dispatch(text)
     n_before = len(registry.log)
-    status, headers, reply, reads = post_to_handler(disp, raw, case.get("sizes", []))
+    try:
+        status, headers, reply, reads = post_to_handler(disp, raw, case.get("sizes", []))
+    except Exception as ex:
+        fail("C02/http-handler-raised:%s" % type(ex).__name__, "the HTTP request handler raised %s: %s for body %r" % (type(ex).__name__, str(ex)[:200], text[:200]))
     if " 200 " not in status + " ":
         fail("C02/http-status", "do_POST answered %r for body %r" % (status, text[:200]), {"reply": repr(reply[:300])})
     got = {}
